@@ -8,6 +8,7 @@ classify (VIOLATION / KNOWN-FINDING / undecided) -> write evidence.
 Exit codes: 0 held on everything explored, 1 VIOLATION, 2 tool trouble / vacuous run.
 """
 import concurrent.futures as cf
+import atexit
 import hashlib
 import json
 import os
@@ -129,6 +130,7 @@ def build(race=False):
     if os.path.realpath(REPO) != "/repo":
         tag = hashlib.sha1(os.path.realpath(REPO).encode()).hexdigest()[:10]
         outdir = os.path.join(BUILD, "alt-" + tag)
+        atexit.register(shutil.rmtree, outdir, True)       # thrown away when the check process ends
         alt = os.path.join(outdir, "harness")
         shutil.rmtree(alt, ignore_errors=True)
         shutil.copytree(hdir, alt)
@@ -271,6 +273,9 @@ def validate_sharded(work, recs, module, cfg, env, tag="v", shards=None, timeout
             stats["states"] += res.distinct
             stats["generated"] += res.generated
             return vs
+        if re.search(r"Semantic errors|\*\*\* Errors: \d|Parse Error|Fatal errors while parsing|Could not find module", res.out):
+            # the specification does not load: no record can be evaluated, bisecting would only waste time
+            raise ToolError("the trace specification %s does not load:\n%s" % (module, tlc_error_text(res)[:1500]))
         if hi - lo == 1:
             why = "timeout" if res.timeout else "error"
             log("TLC could not evaluate record id=%s (%s): %s" % (recs[lo].get("id"), why, tlc_error_text(res)[:600]))
